@@ -17,7 +17,7 @@ func liEvents(rng *Rng, w *liWorld, bn uint64, pool []common.Hash, wrongV2 bool,
 	for i := 0; i < n; i++ {
 		switch k := rng.Intn(10); {
 		case k < 5:
-			toks = append(toks, fmt.Sprintf("i;%d;%s;%s;%s;%d", pos, hx(rng.Bytes(32)), hx(pool[1+rng.Intn(len(pool)-1)][:]), hx(rng.Bytes(32)), 1700000000+bn*12+uint64(i)))
+			toks = append(toks, fmt.Sprintf("i;%d;%s;%s;%s;%d", pos, hx(rng.Bytes(32)), hx(pool[1+rng.Intn(len(pool)-1)][:]), hx(rng.Bytes(32)), liTimestamp(rng, bn, uint64(i))))
 		case k < 9:
 			rid := []uint64{1, 1, 2, 3, 5, 4294967295}[rng.Intn(6)]
 			er := pool[rng.Intn(len(pool))]
@@ -90,6 +90,9 @@ func liWorldGen(r *Run, rng *Rng, w *liWorld, steps int) {
 		case halted || c < 12:
 			lo := first - 1
 			b := lo + uint64(rng.Intn(int(tip-lo)+3))
+			if tip > lo && rng.Chance(30) {
+				b = tip // the most common reorg: exactly the last stored block
+			}
 			w.exec(r, fmt.Sprintf("reorg %d", b))
 			r.Count("branch:reorg")
 			if b <= tip {
@@ -183,5 +186,23 @@ func liGen(r *Run, rng *Rng) {
 			s := strings.Join(w.lines[:min(len(w.lines), 3)], " ; ")
 			r.Sample(s[:min(500, len(s))])
 		}
+	}
+}
+
+// block timestamps: mostly realistic, sometimes 0 / small / beyond 32 bits (the contract hashes uint64(block.timestamp))
+func liTimestamp(rng *Rng, bn, i uint64) uint64 {
+	switch k := rng.Intn(20); {
+	case k == 0:
+		return 0
+	case k == 1:
+		return uint64(rng.Intn(1000))
+	case k == 2:
+		return 1<<32 + uint64(rng.Intn(1<<20))
+	case k == 3:
+		return 1<<32 - 1 + uint64(rng.Intn(3))
+	case k == 4:
+		return uint64(1)<<(33+uint(rng.Intn(29))) + uint64(rng.Intn(1<<30))
+	default:
+		return 1700000000 + bn*12 + i
 	}
 }
